@@ -23,13 +23,22 @@ RULE = ("seeded generator over pairs of connected graphs with 1-7 vertices in cl
         "'big' pairs with len*diam >= 128 (int8 wrap of the sort key under NumPy 2); containers csr/dense/list; "
         "mapping_sample_size_order in {default, [0,0], [1,0], [1,1], [.5,0], [2,0]}; one run with a harness-supplied "
         "RNG (patched np.random.permutation/choice, logged) compared exactly with the model, and several real "
-        "numpy seeds checked by the predicate; non-trivial = both graphs have >= 3 vertices and either the true "
-        "2*mGH >= 1 or the pair is a relabelled copy; distinct = distinct JSON input")
+        "numpy seeds checked by the predicate; 'broom' pairs (lower bound only): 8-14 vertices made of far-apart clusters "
+        "- a hub with 2-3 long legs and a bundle of 2-6 short legs whose tips are mutually close but far from the long "
+        "tips - against a partner of 3-6 vertices (mostly a path) whose order is just below the number of leaves, judged "
+        "by the exact oracle or, over budget, by the distortion of explicit greedy maps (any pair of maps bounds 2*mGH "
+        "from above); 'lookalike' pairs of 6-8 vertices: NON-isomorphic graphs with equal order, degree sequence and "
+        "multiset of sorted distance rows (or equal diameter only), produced by degree-preserving edge switches and "
+        "kept when the exact oracle says 2*mGH >= 1, plus K_{3,3}/prism, C8(1,2)/K_{4,4}, Q3/Moebius ladder in the "
+        "corpus; non-trivial = both graphs have >= 3 vertices and either the true "
+        "2*mGH >= 1 or the pair is a relabelled copy (lower-bound-only cases: relabelled copy or lower bound > 0); "
+        "distinct = distinct JSON input")
 TRUSTED_BASE = [
     "Coq 8.16.1 kernel, vm_compute (no native_compute); development closed under the global context (no axioms)",
     "hand-written models Model/MGHM.v (gromov_hausdorff.py lines 266-741) and Model/GraphM.v (hop metric)",
     "harness: generator, RNG patch/log in the implementation subprocess, matrix printer, verdict parser",
-    "independent Python predicate: BFS hop metric + branch-and-bound minimum distortion over all maps",
+    "independent Python predicate: BFS hop metric + branch-and-bound minimum distortion over all maps; when that is "
+    "over budget on a lower-bound-only case, the distortion of explicit greedy maps in both directions (an upper bound of 2*mGH)",
 ]
 ASSUMPTIONS = [
     "np.delete(K, r, axis=0/1) keeps the principal submatrix on the remaining indices; np.argmin returns the first "
@@ -112,6 +121,89 @@ def _relabel(A, p):
 KINDS = ["dense", "sparse", "path", "cycle", "clique", "star", "spider"]
 
 
+def _broom(rng, nmin=8, nmax=14):
+    """far-apart clusters: a hub (vertex / edge / triangle) with 2-3 long legs (length 2-4) and a bundle of 2-6 short
+    legs (length 1-2) that mostly start at the same hub vertex.  The tips of the long legs are far from everything, the
+    tips of the bundle are mutually close but far from the long tips, so a curvature search that removes rows greedily
+    drops a whole bundle of mutually close vertices that are far from all the rows it keeps."""
+    while True:
+        L = rng.choice([2, 3, 3, 3, 4, 4])
+        s = min(L, rng.choice([1, 1, 1, 2]))
+        kl, ks, h = rng.choice([2, 2, 3]), rng.randint(2, 6), rng.choice([1, 1, 1, 2, 3])
+        lens = [max(1, L - (rng.random() < 0.25)) for _ in range(kl)] + [s] * ks
+        n = h + sum(lens)
+        if nmin <= n <= nmax:
+            break
+    hub = list(range(h))
+    e = [(a, b) for a in hub for b in hub if a < b]
+    v = h
+    shared = rng.choice(hub) if rng.random() < 0.7 else None
+    for i, ln in enumerate(lens):
+        prev = shared if (i >= kl and shared is not None) else rng.choice(hub)
+        for _ in range(ln):
+            e.append((prev, v)); prev = v; v += 1
+    if rng.random() < 0.3:
+        e.append(tuple(rng.sample(range(n), 2)))
+    return _relabel(_upper(n, e), _perm(rng, n))
+
+
+def _small_partner(rng, AX):
+    """a graph of 3-6 vertices whose order is just below the number of leaves of AX (the cardinality test of
+    Theorem A is on the edge), mostly a path (largest diameter for its order: the diameter bound stays silent)"""
+    deg = [0] * len(AX)
+    for a, b in _edges(AX):
+        deg[a] += 1; deg[b] += 1
+    m = min(6, max(3, sum(1 for x in deg if x == 1) - rng.choice([0, 1, 1, 2])))
+    return _graph(rng, rng.choice(["path", "path", "path", "star", "cycle", "spider", "sparse"]), m)
+
+
+def _rowsig(A):
+    """multiset of sorted distance rows: equal for isomorphic graphs, but NOT a complete invariant"""
+    return sorted(sorted(r) for r in _bfs(A))
+
+
+def _degsig(A):
+    return sorted(sum(1 for v in r if v == 1) for r in _bfs(A))
+
+
+def _lookalike(rng, n, level):
+    """a pair of graphs on n vertices with the same order, degree sequence and (level 'rows') the same multiset of
+    sorted distance rows, or (level 'deg') the same diameter: the second graph is obtained from the first by a chain
+    of degree-preserving edge switches a-b, c-d -> a-c, b-d.  Returns None if the chain never left the start."""
+    for _ in range(20):
+        if rng.random() < 0.5:       # circulants / near-regular graphs: all rows alike
+            step = rng.randint(2, max(2, n // 2))
+            e = [(i, (i + 1) % n) for i in range(n)] + [(i, (i + step) % n) for i in range(n)]
+            if rng.random() < 0.4:
+                e.append(tuple(rng.sample(range(n), 2)))
+        else:
+            e = _tree(rng, n) + [(i, j) for i in range(n) for j in range(i + 1, n) if rng.random() < 0.45]
+        A = _upper(n, e)
+        sig = _rowsig(A) if level == "rows" else (_degsig(A), max(map(max, _bfs(A))))
+        cur, best = _edges(A), None
+        for _ in range(60):
+            if len(cur) < 2:
+                break
+            (a, b), (c, d) = rng.sample(cur, 2)
+            if rng.random() < 0.5:
+                c, d = d, c
+            new = [(min(a, c), max(a, c)), (min(b, d), max(b, d))]
+            if len({a, b, c, d}) < 4 or new[0] in cur or new[1] in cur:
+                continue
+            nxt = sorted([x for x in cur if x not in ((a, b), (min(c, d), max(c, d)))] + new)
+            B = _upper(n, nxt)
+            if not _connected(B):
+                continue
+            cur = nxt
+            if (_rowsig(B) if level == "rows" else (_degsig(B), max(map(max, _bfs(B))))) == sig and nxt != _edges(A):
+                best = B
+                if rng.random() < 0.3:
+                    break
+        if best is not None:
+            return A, _relabel(best, _perm(rng, n))
+    return None
+
+
 def _case(rng, cls, AX, AY, iso=None, nseeds=2):
     return {"cls": cls, "AX": AX, "AY": AY, "order": rng.choice(ORDERS), "fmt": rng.choice(["csr", "dense", "list"]),
             "seeds": [rng.randrange(2 ** 31) for _ in range(nseeds)], "pseed": rng.randrange(2 ** 31), "iso": iso}
@@ -179,6 +271,31 @@ def generate(rng, tier):
         p = _perm(rng, n)
         cases.append({"cls": "wide", "kind": "lb", "AX": AX, "AY": _relabel(AX, p), "iso": p, "fmt": "csr",
                       "e2e_seed": rng.randrange(2 ** 31)})
+    # far-apart clusters against a small partner (lower bound only; exact oracle, else explicit maps)
+    for k in range(90 if tier == "quick" else 2500):
+        AX = _broom(rng)
+        AY = _small_partner(rng, AX)
+        if rng.random() < 0.3:
+            AX, AY = AY, AX
+        c = {"cls": "broom", "kind": "lb", "AX": AX, "AY": AY, "iso": None, "fmt": rng.choice(["csr", "dense", "list"])}
+        if k % 4 == 0:
+            c["e2e_seed"] = rng.randrange(2 ** 31)
+        cases.append(c)
+    # look-alikes: same order, same degree sequence, same multiset of sorted distance rows (or only the same diameter),
+    # obtained by degree-preserving edge switches; kept only when the pair is NOT isomorphic (true 2*mGH >= 1), so a
+    # shortcut that declares graphs isometric from such invariants returns an upper bound 0 below the true distance
+    want, tries = (36 if tier == "quick" else 600), 0
+    got = 0
+    while got < want and tries < 6 * want:
+        tries += 1
+        pr = _lookalike(rng, rng.randint(6, 8), "rows" if rng.random() < 0.7 else "deg")
+        if pr is None:
+            continue
+        c = _case(rng, "lookalike", pr[0], pr[1], nseeds=1)
+        t2 = true_two_mgh(c)
+        if t2 is not None and t2 >= 1:
+            cases.append(c)
+            got += 1
     # the greedy assignment test on its own, on distributions larger than 7-vertex graphs produce
     for _ in range(150 if tier == "quick" else 3000):
         maxd = rng.randint(1, 9)
@@ -237,6 +354,17 @@ def corpus():
            # Theorem B is needed: star K_{1,4} against path P5 (equal sizes, diameters 2 and 4)
            dict(base, AX=_upper(5, [(0, i) for i in range(1, 5)]), AY=_upper(6, [(i, i + 1) for i in range(5)])),
            dict(base, AX=_upper(7, [(0, i) for i in range(1, 7)]), AY=_upper(7, [(i, (i + 1) % 7) for i in range(7)]))]
+    # non-isomorphic graphs with identical multisets of sorted distance rows: K_{3,3} / triangular prism (cubic, diameter
+    # 2) and C8(1,2) / K_{4,4} (4-regular, diameter 2); the 3-cube / 8-vertex Moebius ladder pair (both cubic, diameters 3
+    # and 2) shares only order and degree sequence
+    K33 = _upper(6, [(a, b) for a in (0, 1, 2) for b in (3, 4, 5)])
+    PRISM = _upper(6, [(0, 1), (1, 2), (0, 2), (3, 4), (4, 5), (3, 5), (0, 3), (1, 4), (2, 5)])
+    Q3 = _upper(8, [(a, a ^ b) for a in range(8) for b in (1, 2, 4)])
+    MOEB = _upper(8, [(i, (i + 1) % 8) for i in range(8)] + [(i, i + 4) for i in range(4)])
+    C8_2 = _upper(8, [(i, (i + 1) % 8) for i in range(8)] + [(i, (i + 2) % 8) for i in range(8)])      # 4-regular, diameter 2
+    K44m = _upper(8, [(a, b) for a in range(4) for b in range(4, 8)])                                    # K_{4,4}: 4-regular, diameter 2
+    out += [dict(base, AX=K33, AY=PRISM, fmt="dense"), dict(base, AX=PRISM, AY=K33, fmt="csr"),
+            dict(base, AX=Q3, AY=MOEB), dict(base, AX=C8_2, AY=K44m, seeds=[3])]
     return _corpus_files() + out
 
 
@@ -458,6 +586,30 @@ def min_distortion(DX, DY, budget=3_000_000):
     return best[0]
 
 
+def _greedy_map(DA, DB, y0):
+    """an explicit map A -> B: farthest-first order of A, first point to y0, every further point to the image that
+    keeps the distortion so far smallest; returns its distortion (an upper bound of the minimum distortion)"""
+    n, m = len(DA), len(DB)
+    order = [max(range(n), key=lambda i: max(DA[i]))]
+    while len(order) < n:
+        rest = [i for i in range(n) if i not in order]
+        order.append(max(rest, key=lambda i: min(DA[i][j] for j in order)))
+    f = {order[0]: y0}
+    for x in order[1:]:
+        f[x] = min(range(m), key=lambda y: max(abs(DA[x][z] - DB[y][f[z]]) for z in f))
+    return _distortion(DA, DB, [f[i] for i in range(n)])
+
+
+def explicit_upper(c):
+    """2*mGH <= max(dis f, dis g) for ANY maps f: X -> Y, g: Y -> X; here the best of |Y| resp. |X| greedy maps"""
+    key = core.sha(["explicit", c["AX"], c["AY"]])
+    if key not in _true_cache:
+        DX, DY = _bfs(c["AX"]), _bfs(c["AY"])
+        _true_cache[key] = max(min(_greedy_map(DX, DY, y) for y in range(len(DY))),
+                               min(_greedy_map(DY, DX, x) for x in range(len(DX))))
+    return _true_cache[key]
+
+
 _true_cache = {}
 
 
@@ -521,6 +673,13 @@ def predicate(c, o):
         t2 = true_two_mgh(c, budget=150_000)
         if t2 is not None and l > t2:
             return False, "lower: lower bound %r exceeds true mGH %r (find_lb)" % (l / 2.0, t2 / 2.0)
+        if t2 is None and max(len(DX), len(DY)) <= 60:
+            u2 = explicit_upper(c)
+            if l > u2:
+                return False, "lower: lower bound %r exceeds the distortion bound %r of an explicit pair of maps (find_lb)" % (l / 2.0, u2 / 2.0)
+            for lo, up in o.get("e2e", []):
+                if 2 * lo > u2:
+                    return False, "lower: lower bound %r exceeds the distortion bound %r of an explicit pair of maps" % (lo, u2 / 2.0)
         for lo, up in o.get("e2e", []):
             if not (lo >= 0 and up >= 0 and float(2 * lo).is_integer() and float(2 * up).is_integer()):
                 return False, "half-integer: (%r, %r) are not non-negative multiples of 1/2" % (lo, up)
